@@ -537,9 +537,11 @@ def op_strategy(inner, allow, style):
                           st.sampled_from(['s0', 's1'])).map(
         lambda t: {'op': 'sow', 'col': t[0], 'name': t[1]}))
   if 'perturb' in allow and style == 'compact':
-    opts.append(st.tuples(st.sampled_from(['p0', 'p1']), st.sampled_from(
-        [None, None, 'bfloat16', 'float16', 'int32'])).map(
-            lambda t: {'op': 'perturb', 'name': t[0], 'dtype': t[1]}))
+    # (one dtype per name: a perturbation variable is shared by name)
+    opts.append(st.sampled_from([('p0', None), ('p1', None),
+                                 ('pb', 'bfloat16'), ('ph', 'float16'),
+                                 ('pi', 'int32')]).map(
+        lambda t: {'op': 'perturb', 'name': t[0], 'dtype': t[1]}))
   if 'rng' in allow and style == 'compact':
     opts.append(st.sampled_from(STREAMS).map(
         lambda s: {'op': 'rng', 'stream': s}))
